@@ -272,3 +272,38 @@ func ReplayMain(hs map[string]func()) (reproduced bool, detail string) {
 	}
 	return false, last
 }
+
+// HashBytes is the uninterpreted hash function (engine only).
+func HashBytes(kind int, in []byte, n int) []byte { panic("engine only") }
+
+// And/Or/Implies/Ite*: boolean connectives that do not short-circuit, so the
+// engine builds one formula instead of forking paths.
+func And(bs ...bool) bool {
+	for _, b := range bs {
+		if !b {
+			return false
+		}
+	}
+	return true
+}
+func Or(bs ...bool) bool {
+	for _, b := range bs {
+		if b {
+			return true
+		}
+	}
+	return false
+}
+func Implies(a, b bool) bool { return !a || b }
+func IteInt(c bool, a, b int) int {
+	if c {
+		return a
+	}
+	return b
+}
+func IteStr(c bool, a, b string) string {
+	if c {
+		return a
+	}
+	return b
+}
